@@ -290,20 +290,78 @@ func literalOrderSlice(v ssa.Value, depth int) bool {
 			}
 		case *ssa.Call:
 			b, ok := x.Call.Value.(*ssa.Builtin)
-			if !ok || b.Name() != "append" || len(x.Call.Args) != 2 {
+			if !ok {
+				// the result of a first-party helper all of whose returns are literal-order slices
+				h := x.Call.StaticCallee()
+				if h == nil || len(h.Blocks) == 0 || h.Signature.Results().Len() != 1 {
+					return false
+				}
+				for _, r := range engine.Returns(h) {
+					if r.Block() == h.Recover {
+						continue
+					}
+					if len(r.Results) != 1 || !literalOrderSlice(r.Results[0], depth+1) {
+						return false
+					}
+				}
+				continue
+			}
+			if b.Name() != "append" || len(x.Call.Args) != 2 {
 				return false
 			}
 			if !literalOrderSlice(x.Call.Args[0], depth+1) || !literalOrderSlice(x.Call.Args[1], depth+1) {
 				return false
 			}
+		case *ssa.Parameter:
+			// the slice is handed in: every caller has to pass a literal-order slice
+			if literalCallers == nil {
+				return false
+			}
+			fn := x.Parent()
+			idx := -1
+			for i, q := range fn.Params {
+				if q == x {
+					idx = i
+				}
+			}
+			callers := literalCallers(fn)
+			if idx < 0 || len(callers) == 0 {
+				return false
+			}
+			for _, cs := range callers {
+				args := cs.Common().Args
+				if cs.Common().IsInvoke() || idx >= len(args) || !literalOrderSlice(args[idx], depth+1) {
+					return false
+				}
+			}
 		default:
-			return false
+			// the result of a first-party helper all of whose returns are literal-order slices
+			call, ri := engine.CallOf(o)
+			if call == nil {
+				return false
+			}
+			h := call.Common().StaticCallee()
+			if h == nil || len(h.Blocks) == 0 {
+				return false
+			}
+			for _, r := range engine.Returns(h) {
+				if r.Block() == h.Recover {
+					continue
+				}
+				if ri >= len(r.Results) || !literalOrderSlice(r.Results[ri], depth+1) {
+					return false
+				}
+			}
 		}
 	}
 	return true
 }
 
+// literalCallers gives the call sites of a function (set by the rule that uses literalOrderSlice).
+var literalCallers func(fn *ssa.Function) []ssa.CallInstruction
+
 func ruleR09a(c *Check) {
+	literalCallers = func(fn *ssa.Function) []ssa.CallInstruction { return c.G.CallersOf(fn) }
 	c.Rule("R09a", "in the hash-composing functions: a strings.Join whose result is hashed takes a slice sorted before it on every path; a hasher write inside a loop ranges over a slice sorted before the loop (never directly over a map); a slice filled while ranging over a map is sorted before any other use; protobuf bytes that are hashed come from MarshalOptions{Deterministic:true}; slices.Compact is only applied to sorted data", 9)
 	comp := hashComposing(c)
 	sinks := hasherSinks(c)
